@@ -68,6 +68,7 @@ pub fn checks() -> Vec<Check> {
             st("c01.s7", c01::s7, (0, 0), 3, "every attribute-group subset (3 coordinate kinds x 2^10 group/flag bits, invalid combinations skipped), 5 points, capacity 2"),
             Stage { timeout_s: 120, ..st("c01.s8", c01::s8, (0, 0), 3, "scale: 255/256/257/300 point clouds in one file; 65535/65536/65537 points in one cloud; 300 and 70000 one-point data packets (hooked capacity 1); XYZ + 100..5900 extension records with one point more than a natural data packet takes; 4 bit-packed prototypes x 5 natural capacities + 3 points") },
             st("c01.s9", c01::s9, (0, 0), 3, "8 prototypes x 0..3 accepted points x capacity {natural,1,2} x 3 kinds of refused call x every subset of positions between the accepted points: count, points and order are those of the accepted calls"),
+            st("c01.tiny", c01::tiny, (0, 0), 3, "only narrow records: 7x7x3 widths below a byte for X, Y, Z (Integer / ScaledInteger) with no, a 1-bit or a zero-width fourth record x 0..17 points x capacity {natural, 1, 3}: no stream fills a byte per point, flushes find no complete byte"),
             st("c01.s2deep", c01::s2deep, (0, 0), 3, "all writer programs of depth exactly 4 (quick: 20 736) / 5 (thorough: 248 832) over a 12-op sub-alphabet (4 blob sizes, 2 images, 6 clouds)"),
             st("c01.s5", c01::s5, (0, 0), 2, "two hooked-capacity clouds around a pad blob at all 255 residues x prototype pairs"),
         ],
@@ -90,6 +91,7 @@ pub fn checks() -> Vec<Check> {
             st("c02.meta", c02::meta, (0, 0), 3, "1905 metadata-rich files (every catalogue string incl. non-ASCII and astral characters in every string field, 5 image kinds rotating)"),
             st("c02.ext", c02::ext, (0, 0), 3, "all sequences of <=3 extension registration attempts over 2 prefixes x {2 URLs, empty URL, the E57 namespace, the two reserved XML namespace names} (a prefix can be registered once, never with one of the unusable names), then a cloud with an extension attribute"),
             st("c02.blobs", c02::blobs, (0, 0), 3, "blob + cylindrical image payload length 0..=1023 x 17 start residues; payload sources delivering in full / in halves / alternating (rotated)"),
+            st("c02.tiny", c02::tiny, (0, 0), 3, "only narrow records: 7x7x3 widths below a byte for X, Y, Z (Integer / ScaledInteger) with no, a 1-bit or a zero-width fourth record x 0..17 points x capacity {natural, 1, 3}: no stream fills a byte per point, flushes find no complete byte"),
             st("c02.failed_source", c02::failed_source, (0, 0), 3, "add_blob whose payload source fails after k bytes (11 values around 0, 4 and the page size) behind 5 alignments, followed by a small cloud / a multi-packet cloud / an image / a blob: the call reports the failure and the finalized file is still well-formed and complete"),
             st("c02.long_blobs", c02::long_blobs, (0, 0), 3, "blob and image payloads of 12 long lengths (multi-page, around powers of two, up to 1 MiB) x 3 source read modes"),
         ],
@@ -128,6 +130,7 @@ pub fn checks() -> Vec<Check> {
         stages: vec![
             st("c04.lattice", c04::lattice, (3, 4), 3, "presence lattice of 34 optional fields (root, cloud, image): all subsets within <=3 (thorough <=4) toggles of all-absent and of all-present x 5 image kinds x 3 finalize modes"),
             st("c04.types", c04::types, (0, 0), 3, "every catalogue data type (floats with none / both / one-sided limits, ~190 integer and scaled-integer ranges) as coordinate, intensity, colour, time stamp and extension record: prototype read back unchanged"),
+            st("c04.poses", c04::poses, (0, 0), 3, "42 poses (5 unit rotations x every zero / non-zero pattern of the translation, negative zeros, extreme magnitudes) for the point cloud and a neighbouring pose for the image x 5 image kinds"),
             st("c04.scale", c04::scale, (0, 0), 3, "strings of 65535 / 70001 characters (ASCII, 2-byte, 4-byte, markup) in every string field x image kinds; 300 registered extensions"),
             st("c04.ext", c04::ext, (0, 0), 3, "all sequences of <=3 extension registration attempts over 2 prefixes x {2 URLs, empty URL, E57 namespace, reserved XML namespace names}: the reader lists exactly the accepted registrations"),
             st("c04.strings", c04::strings, (0, 0), 3, "every catalogue string (all strings of length <=3 over 12 XML-critical characters + 20 long ones) in every string field, rotated per field"),
@@ -166,6 +169,7 @@ pub fn checks() -> Vec<Check> {
             st("c06.product", c06::product, (0, 0), 3, "full product: blob length 0..=1023 (thorough 0..=3071) x all 255 aligned start residues; payload source delivering in full / in halves / alternating (rotated)"),
             st("c06.long", c06::long, (0, 0), 3, "multi-page lengths 1020k+d (k=1..3, d=-20..20), 2^k-1, 2^k, 2^k+1 for k=12..17 and 20, 200000 x 16 residues x 3 fill patterns x 3 source read modes"),
             st("c06.neighbours", c06::neighbours, (0, 0), 3, "all programs of depth <=3 over blobs, every image kind with/without mask, cloud; unique payload patterns"),
+            st("c06.flows", c06::flows, (0, 0), 3, "all programs of depth <=2 over the 18-op blob/image alphabet x 7 flows: projection added before the visual reference, an additional finalize() after the first op, a finalize_customized_xml with failing transformer in front of the real finalize, and their combinations; every payload must be listed and lead to its own data"),
             st("c06.behind", c06::behind, (0, 0), 3, "a blob and an image with masks (one empty) behind 100 KiB .. 4 MiB of other content x {nothing, a blob, a cloud} behind them"),
             st("c06.foreign", c06::foreign, (0, 0), 3, "3 documents x every child position of every image representation x foreign jpegImage / pngImage / imageMask elements (blob typed; inside a foreign wrapper): descriptors and data unchanged"),
             st("c06.many", c06::many, (0, 0), 3, "255 / 256 / 257 / 300 images in one file (kinds rotating, mask on every third, unique payloads): every descriptor leads to its own data"),
@@ -227,6 +231,7 @@ pub fn checks() -> Vec<Check> {
             st("c10.protos_base", c10::protos_base, (0, 0), 3, "valid base (XYZ f32 | spherical f64) + <=2 extra records over 25 names x 16 types"),
             st("c10.protos_mutated", c10::protos_mutated, (0, 0), 3, "catalogue prototypes with one record deleted / duplicated / retyped"),
             st("c10.protos_groups", c10::protos_groups, (0, 0), 3, "all name sequences of length 1..4 over the 9 coordinate/colour component names (every combination of missing and repeated group members)"),
+            st("c10.names", c10::names, (0, 0), 3, "30 candidate names (the reserved word xml in every case, its prefixes and extensions, every character class first / later / last, empty, non-ASCII) x {namespace prefix, attribute name} x {as is, 300 characters longer}: refused exactly when the documented name rule says so, accepted names read back"),
             Stage { timeout_s: 120, ..st("c10.protos_wide", c10::protos_wide, (0, 0), 3, "XYZ + k extension records (64-bit / 1-bit / zero-width) for every k in 5880..5930, 20790..20830, 21650..21700, 60..64 x {1,3} points: every call returns, success implies read-back") },
             st("c10.strings", c10::strings, (0, 0), 3, "12 strings with characters XML cannot carry (NUL, C0 controls, U+FFFE/FFFF) or with carriage returns x every string field (rotation over 40 fields) x 2 image kinds: refused by some call, or stored faithfully"),
             st("c10.image_calls", c10::image_calls, (0, 0), 3, "all sequences of <=3 representation calls (4 kinds x with/without mask) on one ImageWriter: accepted exactly when the visual / projection slot is empty; the image reads back with the accepted representations"),
@@ -246,7 +251,7 @@ pub fn checks() -> Vec<Check> {
     Check {
         id: "C11",
         level: "model_checking",
-        stages: vec![],
+        stages: vec![st("c11.bulk", c11::bulk, (0, 0), 3, "large transfers outside the BFS bound: one write call of k pages -1/0/+1 byte, k in {1,2,3,8,16,31,32,33,34,64,65,100}, behind a prefix of 0/1/1019/1020/1021 bytes, then flush / patch of the first 48 bytes and append / the same write again / align; device delivering in full or in halves; image, position and size against the logical stream after every step")],
         extra: Some(c11::extra),
         rule: "explicit-state BFS: a state is the op history; canonical state = (device bytes, device cursor, page offset, page buffer, generation) read through the verification hooks - every field PagedWriter has, so merging equal states is exact; invariants I1-I5 evaluated on every transition and on the image left by flush (even ops) or drop (odd ops); read side: every op sequence to the depth bound on every distinct image; distinct_nontrivial = distinct canonical states",
         assumptions: &[
@@ -263,6 +268,7 @@ pub fn checks() -> Vec<Check> {
             st("c12.g1", c12::g1, (0, 0), 3, "writer direction: widths 0..64 x 3 range shapes x 4 anchors (0, -3, i64::MIN, i64::MAX) x hooked capacity 1..16 x Integer/ScaledInteger; boundary + walking-bit values; stream bytes vs independent bit codec, then read back with the real reader"),
             st("c12.g2", c12::g2, (1, 2), 3, "reader direction: widths 0..64 x 4 anchors x Integer/ScaledInteger, e57spec-encoded streams in 2 (thorough 3) packets, every byte cut of every record stream (thorough: all pairs), default limits optionally left out (one-sided declarations)"),
             st("c12.g5", c12::g5, (0, 0), 3, "prototypes whose four records all have zero width, every Integer / ScaledInteger combination x {1, 3, 100} points x {real writer, independent encoder}"),
+            st("c12.g6", c12::g6, (0, 0), 3, "only narrow records: 7x7x3 widths below a byte for X, Y, Z (Integer / ScaledInteger) with no, a 1-bit or a zero-width fourth record x 0..17 points x capacity {natural, 1, 3}: no stream fills a byte per point, flushes find no complete byte; streams vs independent codec, validator, read-back"),
             st("c12.g3", c12::g3, (0, 0), 3, "natural packet capacity: for every width one file of capacity+9 points (w-bit + 1-bit + 0-bit records)"),
             st("c12.g4", c12::g4, (0, 0), 3, "direct drive (hook): w<=12, every value of the width at every position of a 9-value stream, get_full_bytes after every index, reader append split at every byte"),
             st("c12.g4b", c12::g4b, (0, 0), 3, "direct drive (hook): w<=5, every 3-value sequence after 0..7 leading values, flushed after every value"),
@@ -361,6 +367,7 @@ pub fn checks() -> Vec<Check> {
         stages: vec![
             st("c19.layouts", c19::layouts, (2, 3), 3, "11 scenes encoded by e57spec under every layout with <=2 (thorough <=3) deviations: copy, compare as read, copy the copy (byte-identical), write twice (byte-identical)"),
             st("c19.programs", c19::programs, (0, 0), 3, "outputs of all writer programs of depth <=2 (thorough <=3) and 1905 metadata-rich files (every catalogue string in every string field, 5 image kinds rotating)"),
+            Stage { timeout_s: 120, ..st("c19.payloads", c19::payloads, (0, 0), 3, "independently encoded files: 42 poses for cloud and images x image / mask payloads of 12 long lengths (1019 .. 1 MiB, around the page size and powers of two): copy, compare, copy the copy") },
             st("c19.align", c19::align, (0, 0), 3, "first cloud of 0..344 byte-sized points moves the second cloud's section of the copy through all 255 aligned residues of the page payload"),
             Stage { timeout_s: 120, ..st("c19.bulk", c19::bulk, (0, 0), 3, "4 bit-packed prototypes (12/12/12/2, 10/10/10/8, 7/7/7, 21/21/21/3 bits) x 5 natural packet capacities + 3 points, source encoded independently: copy, compare, copy the copy") },
             st("c19.bundled", c19::bundled, (0, 0), 3, "every bundled /repo/testdata/*.e57 that opens and whose prototypes follow the writer's documented rules"),
